@@ -23,7 +23,12 @@ func main() {
 	list := flag.String("list", "", "file with one behaviour file name per line")
 	replicas := flag.Int("replicas", 1, "C14: execute every behaviour this many times")
 	repOffset := flag.Int("rep-offset", 0, "C14: number the replicas from this offset + 1")
+	addrs := flag.Int("addrs", 0, "print the bech32 addresses of model users u1..uN as JSON and exit")
 	flag.Parse()
+	if *addrs > 0 {
+		json.NewEncoder(os.Stdout).Encode(fr.UserAddrMap(*addrs))
+		return
+	}
 	files := flag.Args()
 	if *list != "" {
 		bz, err := os.ReadFile(*list)
